@@ -970,6 +970,9 @@ func (e *Engine) contractMod(ms *ModSet, con *Contract, fn *ssa.Function, caller
 			}
 			if strings.Contains(p, "!") {
 				ms.keys[p] = true
+			} else if strings.HasPrefix(p, "cellof(") || strings.HasPrefix(p, "rowof(") {
+				// the component family is not known without types: be conservative for the write set
+				ms.all = true
 			} else if strings.HasPrefix(p, "elemsof(") {
 				// element type unknown here: conservatively all byte elements (the only use)
 				ms.keys["E!uint8"] = true
@@ -987,6 +990,8 @@ func (e *Engine) contractMod(ms *ModSet, con *Contract, fn *ssa.Function, caller
 				} else {
 					ms.all = true
 				}
+			} else if t := e.lookupType(pk, p); t != nil {
+				ms.keys["O!"+typeKey(t)] = true
 			} else {
 				ms.all = true
 			}
